@@ -46,8 +46,8 @@ pub fn dir_code(d: BufferDirection) -> u8 {
     match d { BufferDirection::DriverToDevice => 0, BufferDirection::DeviceToDriver => 1, BufferDirection::Both => 2 }
 }
 
-pub struct Region { pub paddr: u64, pub vaddr: usize, pub pages: usize, pub dir: u8, pub live: bool }
-pub struct Share { pub paddr: u64, pub vaddr: usize, pub len: usize, pub dir: u8, pub bounce: Vec<u8>, pub live: bool }
+pub struct Region { pub paddr: u64, pub vaddr: usize, pub pages: usize, pub dir: u8, pub live: bool, pub ap: bool }
+pub struct Share { pub paddr: u64, pub vaddr: usize, pub len: usize, pub dir: u8, pub bounce: Vec<u8>, pub live: bool, pub ap: bool }
 pub struct MmioWin { pub paddr: u64, pub size: u64, pub vbase: usize }
 
 pub struct Ledger {
@@ -174,7 +174,7 @@ pub fn add_mmio_window(paddr: u64, size: u64, vbase: usize) {
 pub struct LedgerHal;
 
 unsafe impl Hal for LedgerHal {
-    fn dma_alloc(pages: usize, direction: BufferDirection, _ap: bool) -> (PhysAddr, NonNull<u8>) {
+    fn dma_alloc(pages: usize, direction: BufferDirection, ap: bool) -> (PhysAddr, NonNull<u8>) {
         LEDGER.with(|l| {
             let mut l = l.borrow_mut();
             let k = l.alloc_count;
@@ -187,19 +187,21 @@ unsafe impl Hal for LedgerHal {
             let paddr = l.next_dma;
             // leave an unmapped guard page between regions
             l.next_dma += ((pages.max(1) + 1) * PAGE) as u64;
-            l.regions.push(Region { paddr, vaddr, pages, dir: dir_code(direction), live: true });
+            l.regions.push(Region { paddr, vaddr, pages, dir: dir_code(direction), live: true, ap });
             l.log.push(Ev::Alloc { pages, dir: dir_code(direction), paddr });
             (paddr, NonNull::new(vaddr as *mut u8).unwrap())
         })
     }
 
-    unsafe fn dma_dealloc(paddr: PhysAddr, vaddr: NonNull<u8>, pages: usize, _ap: bool) -> i32 {
+    unsafe fn dma_dealloc(paddr: PhysAddr, vaddr: NonNull<u8>, pages: usize, ap: bool) -> i32 {
         LEDGER.with(|l| {
             let mut l = l.borrow_mut();
             let mut ok = false;
             let mut to_free = None;
             if let Some(r) = l.regions.iter_mut().find(|r| r.live && r.paddr == paddr) {
-                if r.vaddr == vaddr.as_ptr() as usize && r.pages == pages {
+                // a platform that maps through an IOMMU only when VIRTIO_F_ACCESS_PLATFORM was negotiated must be told the
+                // same thing when the region is returned as when it was obtained
+                if r.vaddr == vaddr.as_ptr() as usize && r.pages == pages && r.ap == ap {
                     ok = true;
                     r.live = false;
                     to_free = Some((r.vaddr, r.pages));
@@ -235,7 +237,7 @@ unsafe impl Hal for LedgerHal {
         })
     }
 
-    unsafe fn share(buffer: NonNull<[u8]>, direction: BufferDirection, _ap: bool) -> PhysAddr {
+    unsafe fn share(buffer: NonNull<[u8]>, direction: BufferDirection, ap: bool) -> PhysAddr {
         LEDGER.with(|l| {
             let mut l = l.borrow_mut();
             let len = buffer.len();
@@ -253,13 +255,13 @@ unsafe impl Hal for LedgerHal {
             }
             let paddr = l.next_share;
             l.next_share += ((len as u64 + 15) & !15) + 16;
-            l.shares.push(Share { paddr, vaddr, len, dir, bounce, live: true });
+            l.shares.push(Share { paddr, vaddr, len, dir, bounce, live: true, ap });
             l.log.push(Ev::Share { vaddr, len, dir, paddr });
             paddr
         })
     }
 
-    unsafe fn unshare(paddr: PhysAddr, buffer: NonNull<[u8]>, direction: BufferDirection, _ap: bool) {
+    unsafe fn unshare(paddr: PhysAddr, buffer: NonNull<[u8]>, direction: BufferDirection, ap: bool) {
         LEDGER.with(|l| {
             let mut l = l.borrow_mut();
             let len = buffer.len();
@@ -267,7 +269,7 @@ unsafe impl Hal for LedgerHal {
             let dir = dir_code(direction);
             let mut ok = false;
             if let Some(s) = l.shares.iter_mut().find(|s| s.live && s.paddr == paddr) {
-                if s.vaddr == vaddr && s.len == len && s.dir == dir {
+                if s.vaddr == vaddr && s.len == len && s.dir == dir && s.ap == ap {
                     ok = true;
                     s.live = false;
                     if dir == 1 || dir == 2 {
@@ -276,7 +278,7 @@ unsafe impl Hal for LedgerHal {
                 }
             }
             if !ok {
-                l.violations.push(format!("unshare({:#x}, {:#x}+{}, dir {}) does not match a live share", paddr, vaddr, len, dir));
+                l.violations.push(format!("unshare({:#x}, {:#x}+{}, dir {}, access_platform {}) does not match a live share", paddr, vaddr, len, dir, ap));
             }
             l.log.push(Ev::Unshare { paddr, vaddr, len, dir, ok });
         })
